@@ -246,7 +246,7 @@ def layouts(tier):
     out = []
     small = FIELD_OPTS_SMALL
     full = FIELD_OPTS_FULL
-    for n, pool in ((0, full), (1, full), (2, full if tier == 'thorough' else small), (3, small if tier == 'thorough' else None)):
+    for n, pool in ((0, full), (1, full), (2, full), (3, small if tier == 'thorough' else None)):
         if pool is None:
             continue
         for opts in itertools.product(pool, repeat=n):
